@@ -136,6 +136,56 @@ theorem C02_adopt_full_reorg (c : Cfg) (ok : CpsOk c.cps) (hw : 1 ≤ c.win) (pe
   · have := hnocp cp hn; simp [hlen] at hl; omega
   · have := hnocp cp hn; simp [hlen] at hl; omega
 
+/-- **The known work is the work of exactly the displaced suffix.**  In every state that satisfies
+the invariant (so: in every reachable state, see the corollary), whatever the table - the blocks may
+all have different work -, the number the reorganisation arm compares the offered branch with
+(`knownWalk`: `prev.height - bh` steps back from the in-memory tip, list nodes while they last, then
+the store) is the sum of the work of the stored headers at heights `bh + 1 .. tip`: neither the fork
+block (height `bh`) nor anything below it is counted, and the tip is.  (`known_is_displaced` in
+Lemmas/BlockMgrC02 is the same statement with the in-memory tip already identified.) -/
+theorem C02_known_work_is_displaced_suffix (c : Cfg) (s : State) (inv : Inv c s) (prev : Node)
+    (hhd : s.hl.head? = some prev) (bh : Nat) (hbh : bh < tipHeight s.log) :
+    knownWalk c.tbl s.log (prev.height - bh) s.hl prev.id 0 = sumWork c.tbl (s.log.drop (bh + 1)) := by
+  have h := inv.anch.head inv.good
+  rw [hhd] at h
+  have hp : prev = ⟨tipId s.log, tipHeight s.log⟩ := Option.some.inj h
+  subst hp
+  exact known_is_displaced c s inv bh hbh
+
+/-- the same after every history -/
+theorem C02_known_work_every_history (c : Cfg) (ok : CpsOk c.cps) (hw : 1 ≤ c.win) (peers : List Peer)
+    (es : List Ev) (bh : Nat) :
+    let s := run c (init c peers) es
+    bh < tipHeight s.log →
+    knownWalk c.tbl s.log (tipHeight s.log - bh) s.hl (tipId s.log) 0 = sumWork c.tbl (s.log.drop (bh + 1)) := by
+  intro s hbh
+  exact known_is_displaced c s (inv_run c ok hw _ es (inv_init c ok peers)) bh hbh
+
+/-- **The decision is the comparison with the displaced suffix, in both directions.**  For a header
+that is not stored, whose parent is stored at `bh` below the tip and at or above the newest passed
+checkpoint, offered with a fully valid rest by a peer the node listens to: the branch is adopted
+iff its work is STRICTLY greater than the work of the stored headers at heights `bh + 1 .. tip`,
+ignored iff equal, and the peer disconnected iff less.  Every state satisfying the invariant. -/
+theorem C02_decision_by_displaced_work (c : Cfg) (s : State) (inv : Inv c s) (p h : Nat) (rest : List Nat)
+    (bh : Nat) (hl : s.sync = some p ∨ synced c s = true) (hnew : h ∉ s.log)
+    (hpar : (c.tbl.parent h).bind (idxOf s.log) = some bh) (hbh : bh < tipHeight s.log)
+    (hfl : (findPrevCp c.cps (tipHeight s.log + 1)).height ≤ bh) (hval : (h :: rest).all c.tbl.valid = true) :
+    reorgDecision c s p ⟨tipId s.log, tipHeight s.log⟩ h rest =
+      (if sumWork c.tbl (s.log.drop (bh + 1)) > sumWork c.tbl (h :: rest) then .disconnect
+       else if sumWork c.tbl (s.log.drop (bh + 1)) = sumWork c.tbl (h :: rest) then .ignore
+       else .adopt bh) := by
+  have hk := known_is_displaced c s inv bh hbh
+  have hne : s.log ≠ [] := by
+    intro e; have := inv.good.length_pos; rw [e] at this; simp at this
+  have htip : h ≠ tipId s.log := fun e => hnew (e ▸ tipId_mem hne)
+  have hlisten : (s.sync != some p && !synced c s) = false := by
+    rcases hl with h1 | h1
+    · simp [h1]
+    · simp [h1]
+  have hfl' : ¬ bh < (findPrevCp c.cps (tipHeight s.log + 1)).height := by omega
+  have hval' : (!(h :: rest).all c.tbl.valid) = false := by rw [hval]; rfl
+  simp only [reorgDecision, hlisten, Bool.false_eq_true, ↓reduceIte, htip, hnew, hpar, hfl', hval', hk]
+
 /-- The letter of "total work never decreases except on a checkpoint-failure rollback".
 FALSE on the code as it is (finding F16); see the counterexample and the partial theorem. -/
 def C02_work_monotone : Prop :=
@@ -282,5 +332,24 @@ example : reorgDecision exCfg2 exS 1 ⟨2, 2⟩ 3 [4] = .adopt 1 := by decide   
 example : reorgDecision exCfg2 exS 1 ⟨2, 2⟩ 5 [] = .ignore := by decide        -- equal work: ignored
 example : (step exCfg2 exS (.headers 1 [3, 4])).1.log = [0, 1, 3, 4] := by decide
 example : (step exCfg2 exS (.headers 1 [5])).1.log = [0, 1, 2] := by decide
+
+/-! Non-constant work: stored `[0, 1, 2, 3]` with work 2, 2, 8, 3 (a retarget between 1 and 2, a
+lighter tip).  Forking at height 1 (fork block: work 2) the displaced suffix `[2, 3]` weighs 11 -
+not 10 = work(1) + work(2), the sum over the window shifted down by one block, and not 13. -/
+def exTbl3 : Tbl :=
+  { parent := fun i => match i with | 1 => some 0 | 2 => some 1 | 3 => some 2 | 4 => some 1 | 5 => some 1 | 6 => some 1 | _ => none
+    work := fun i => match i with | 2 => 8 | 3 => 3 | 4 => 11 | 5 => 12 | 6 => 10 | _ => 2
+    valid := fun _ => true, fresh := fun _ => true }
+def exCfg3 : Cfg := { tbl := exTbl3, cps := [], win := 8 }
+def exS3 : State := run exCfg3 (init exCfg3 [{ id := 1, cand := true }]) [.newPeer 1, .headers 1 [1, 2, 3]]
+
+example : exS3.log = [0, 1, 2, 3] ∧ exS3.hl.head? = some ⟨3, 3⟩ := by decide
+example : knownWalk exCfg3.tbl exS3.log (3 - 1) exS3.hl 3 0 = 11 := by decide
+example : sumWork exCfg3.tbl (exS3.log.drop (1 + 1)) = 11 := by decide
+example : reorgDecision exCfg3 exS3 1 ⟨3, 3⟩ 4 [] = .ignore := by decide          -- 11 = 11: a tie
+example : reorgDecision exCfg3 exS3 1 ⟨3, 3⟩ 5 [] = .adopt 1 := by decide        -- 12 > 11
+example : reorgDecision exCfg3 exS3 1 ⟨3, 3⟩ 6 [] = .disconnect := by decide     -- 10 < 11 (but = 2 + 8)
+example : (step exCfg3 exS3 (.headers 1 [6])).1.log = [0, 1, 2, 3] := by decide
+example : (step exCfg3 exS3 (.headers 1 [5])).1.log = [0, 1, 5] := by decide
 
 end Neutrino.BM
